@@ -188,6 +188,22 @@ func checkC07(c *Ctx) {
 		if pk.Name != "generator" {
 			continue
 		}
+		// functions of the package that create a temporary file or directory
+		tempMakers := map[string]bool{}
+		for _, fd := range load.AllFuncs(pk) {
+			fd := fd
+			ast.Inspect(fd.Body, func(n ast.Node) bool {
+				if call, ok := n.(*ast.CallExpr); ok {
+					if fn := goan.Callee(pk.TypesInfo, call); fn != nil {
+						switch goan.CalleeName(fn) {
+						case "os.MkdirTemp", "os.CreateTemp", "os.TempDir", "io/ioutil.TempDir", "io/ioutil.TempFile":
+							tempMakers[load.FuncName(fd)] = true
+						}
+					}
+				}
+				return true
+			})
+		}
 		nSpecStores := 0
 		for _, fd := range load.AllFuncs(pk) {
 			fd := fd
@@ -205,9 +221,14 @@ func checkC07(c *Ctx) {
 						continue
 					}
 					nSpecStores++
-					_, isCall := ast.Unparen(as.Rhs[i]).(*ast.CallExpr)
-					c.Check(!isCall, "C07.R2.ambient", fmt.Sprintf("generator.%s › GenOpts.Spec ⟸ %s", load.FuncName(fd), goan.ExprString(as.Rhs[i])), c.posOf(pk, as.Pos()), "not replaced by a computed path",
-						"GenOpts.Spec, which is rendered into the go:generate comment of generated code, is replaced by the result of a call (e.g. the temporary x-order copy): the generated file names a path that changes at every run")
+					isCall := false
+					if call, ok := ast.Unparen(as.Rhs[i]).(*ast.CallExpr); ok {
+						if fn := goan.Callee(pk.TypesInfo, call); fn != nil && fn.Pkg() == pk.Types && tempMakers[load.RecvNameOf(fn)+fn.Name()] {
+							isCall = true
+						}
+					}
+					c.Check(!isCall, "C07.R2.ambient", fmt.Sprintf("generator.%s › GenOpts.Spec ⟸ %s", load.FuncName(fd), goan.ExprString(as.Rhs[i])), c.posOf(pk, as.Pos()), "not replaced by the path of a temporary file",
+						"GenOpts.Spec, which is rendered into the go:generate comment of generated code, is replaced by the path of a temporary copy: the generated file names a path that changes at every run")
 				}
 				return true
 			})
